@@ -1731,4 +1731,230 @@ theorem idCells_uses_source_cols' (e l v : Int) (i : Nat) :
   exact ⟨rfl, rfl⟩
 end Phase4
 
+
+/-! ### phase 5: the padded tables of a clean run are `specTables`, whatever the order of the log -/
+
+theorem interGroups_spec (rnd : Rat → Rat) (l : List (List Int × List PyDict)) (h : ∀ ir ∈ l, WellFormed ir) :
+    interGroups true (l.map (fun ir => (ir.1, packedOf rnd true ir.2)))
+      = .ok ((l.map (specRowsOf rnd)).filter (fun g => !g.isEmpty)) := by
+  induction l with
+  | nil => simp [interGroups]
+  | cons ir l ih =>
+    obtain ⟨ids, rows⟩ := ir
+    have h3 : ids.length = 3 := h (ids, rows) (by simp)
+    match ids, h3 with
+    | [e, l', v], _ =>
+      simp only [List.map_cons, interGroups, triRows_packedOf rnd e l' v rows, ih (fun x hx => h x (by simp [hx])), specRowsOf,
+        List.filter_cons]
+      by_cases hr : (specRows rnd e l' v rows).isEmpty <;> simp [hr]
+
+theorem groups_encode (rnd : Rat → Rat) (txs : List Tx)
+    (hw : ∀ ir ∈ t4sOf txs, WellFormed ir) (hnd : ((t4sOf txs).map (·.1)).Nodup) :
+    interGroups true (interRecs (txs.map (encodeTx rnd true))) = .ok (specGroups rnd txs) := by
+  unfold interRecs specGroups
+  rw [intersOf_encode]
+  rw [foldl_mergeInter_nodup _ [] (by intro ic hic; simp only [List.mem_map] at hic; obtain ⟨ir, hir, rfl⟩ := hic; exact hw ir hir)
+        (by simpa [List.map_map, Function.comp_def] using hnd) (by simp)]
+  rw [List.nil_append, sortBy_map (fun ir : List Int × List PyDict => (ir.1, packedOf rnd true ir.2)) ltTriP ltTri (by intro a b; rfl)]
+  apply interGroups_spec
+  intro ir hir
+  exact hw ir ((sortBy_perm ltTriP _).mem_iff.mp hir)
+
+theorem specGroups_flatten (rnd : Rat → Rat) (txs : List Tx) : (specGroups rnd txs).flatten = specInteractions rnd txs := by
+  unfold specGroups specInteractions
+  generalize sortBy ltTriP (t4sOf txs) = l
+  induction l with
+  | nil => simp
+  | cons a l ih =>
+    simp only [List.map_cons, List.filter_cons, List.flatMap_cons]
+    by_cases hr : (specRowsOf rnd a).isEmpty
+    · simp [ih, List.isEmpty_iff.mp hr]
+    · simp [hr, ih]
+
+theorem tablesOf_run (rnd : Rat → Rat) (info : PyDict) (txs : List Tx) (hc : CleanRun txs) :
+    tablesOf true (encode rnd true false (.t0 info :: txs)) = .ok (specTables rnd txs) := by
+  have hg := groups_encode rnd (.t0 info :: txs) hc.wf hc.triNodup
+  have hE := compTable_encode rnd true .E (.t0 info :: txs) (hc.idNodup .E) (hc.keysOk .E)
+  have hL := compTable_encode rnd true .L (.t0 info :: txs) (hc.idNodup .L) (hc.keysOk .L)
+  have hV := compTable_encode rnd true .V (.t0 info :: txs) (hc.idNodup .V) (hc.keysOk .V)
+  simp only [encode, Bool.false_eq_true, if_false, List.singleton_append, tablesOf, ne_eq, not_true_eq_false, hg, hE, hL, hV]
+  rfl
+
+theorem specTables_perm (rnd : Rat → Rat) (txs txs' : List Tx) (hp : txs.Perm txs') (hc : CleanRun txs) :
+    specTables rnd txs = specTables rnd txs' := by
+  simp only [specTables, specGroups, specParams_perm rnd _ txs txs' hp (hc.idNodup _),
+    sortBy_eq_of_perm ltTriP ltTriP_asymm ltTriP_trans _ _ (t4sOf_perm _ _ hp) (ltTriP_anti _ hc.triNodup)]
+
+theorem tables_order_invariant' (rnd : Rat → Rat) (info : PyDict) (txs txs' : List Tx) (hp : txs.Perm txs') (hc : CleanRun txs) :
+    tablesOf true (fileAfter rnd true info none txs') = .ok (specTables rnd txs)
+    ∧ tablesOf true (fileAfter rnd true info none txs) = .ok (specTables rnd txs) := by
+  refine ⟨?_, tablesOf_run rnd info txs hc⟩
+  rw [specTables_perm rnd txs txs' hp hc]
+  exact tablesOf_run rnd info txs' (cleanRun_perm txs txs' hp hc)
+
+theorem tables_punched_log' (rnd : Rat → Rat) (info : PyDict) (txs keep txs₂ : List Tx) (hc : CleanRun txs)
+    (hp : (keep ++ txs₂).Perm txs) :
+    tablesOf true (fileAfter rnd true info (some (fileAfter rnd true info none keep)) txs₂) = .ok (specTables rnd txs) := by
+  have h : fileAfter rnd true info (some (fileAfter rnd true info none keep)) txs₂ = fileAfter rnd true info none (keep ++ txs₂) := by
+    simp only [fileAfter, encode_append]
+  rw [h]
+  exact (tables_order_invariant' rnd info txs (keep ++ txs₂) hp.symm hc).1
+
+
+
+theorem nodupB_iff {α} [DecidableEq α] (l : List α) : nodupB l = true ↔ l.Nodup := by
+  induction l with
+  | nil => simp [nodupB]
+  | cons x xs ih => simp [nodupB, ih]
+
+theorem cleanRunB_sound (txs : List Tx) (h : cleanRunB txs = true) : CleanRun txs := by
+  simp only [cleanRunB, Bool.and_eq_true, List.all_eq_true, decide_eq_true_eq, nodupB_iff] at h
+  obtain ⟨⟨⟨h0, hw⟩, hn⟩, ht⟩ := h
+  refine ⟨?_, ?_, hn, ?_, ?_⟩
+  · intro m hm
+    have := h0 _ hm
+    simp at this
+  · intro ir hir; exact hw ir hir
+  · intro t
+    have := ht t (by cases t <;> simp)
+    exact this.1
+  · intro t ip hip
+    have := ht t (by cases t <;> simp)
+    exact this.2 ip hip
+
+theorem cleanRunB_complete (txs : List Tx) (h : CleanRun txs) : cleanRunB txs = true := by
+  simp only [cleanRunB, Bool.and_eq_true, List.all_eq_true, decide_eq_true_eq, nodupB_iff]
+  refine ⟨⟨⟨?_, h.wf⟩, h.triNodup⟩, ?_⟩
+  · intro t ht
+    cases t with
+    | t0 m => exact absurd ht (h.noT0 m)
+    | _ => rfl
+  · intro t _
+    exact ⟨h.idNodup t, h.keysOk t⟩
+
+
+/-! ### phase 5: `Result.__init__` caches / `full_name` -/
+
+theorem cellAt_map (cols : List String) (f : String → Option Val) (c : String) :
+    cellAt cols (cols.map f) c = if c ∈ cols then f c else none := by
+  unfold cellAt
+  induction cols with
+  | nil => simp
+  | cons d ds ih =>
+    simp only [List.map_cons, List.zip_cons_cons, List.lookup_cons, List.mem_cons]
+    by_cases h : c = d
+    · subst h
+      simp
+      cases f c <;> rfl
+    · have : (c == d) = false := by simpa using h
+      simp only [this, h, false_or]
+      exact ih
+
+theorem lookup_none_of_not_key (r : Row) (c : String) (h : c ∉ rowKeys r) : r.lookup c = none :=
+  lookup_not_mem c r h
+
+theorem lrnNames_padTable (init : List String) (groups : List (List Row)) :
+    lrnNames (padTable init groups)
+      = groups.flatten.map (fun r => fullNameOf (padTable init groups).columns (fun c => r.lookup c)) := by
+  simp only [lrnNames, padTable, List.map_map]
+  apply List.map_congr_left
+  intro r hr
+  simp only [Function.comp]
+  congr 1
+  funext c
+  rw [cellAt_map]
+  split
+  · rfl
+  · rename_i hc
+    symm
+    apply lookup_none_of_not_key
+    intro hk
+    apply hc
+    obtain ⟨g, hg, hrg⟩ := List.mem_flatten.mp hr
+    exact (tableCols_mem init groups c).mpr (Or.inr ⟨g, hg, r, hrg, hk⟩)
+
+theorem lookup_some_key (r : Row) (c : String) (v : Val) (h : r.lookup c = some v) : c ∈ rowKeys r := by
+  by_contra hc
+  rw [lookup_none_of_not_key r c hc] at h
+  cases h
+
+theorem nameParams_mem (cols : List String) (get : String → Option Val) (hget : ∀ c v, get c = some v → c ∈ cols) (k : String) (v : Val) :
+    (k, v) ∈ nameParams cols get ↔ (k ≠ "" ∧ k ≠ "family" ∧ k ≠ "learner_id" ∧ get k = some v) := by
+  simp only [nameParams, List.mem_filterMap]
+  constructor
+  · rintro ⟨c, hc, h⟩
+    split at h
+    · cases h
+    · rename_i hne
+      simp only [not_or] at hne
+      cases hg : get c with
+      | none => simp [hg] at h
+      | some w =>
+        simp only [hg, Option.map_some, Option.some.injEq, Prod.mk.injEq] at h
+        obtain ⟨rfl, rfl⟩ := h
+        exact ⟨hne.1, hne.2.1, hne.2.2, hg⟩
+  · rintro ⟨h1, h2, h3, hg⟩
+    refine ⟨k, hget k v hg, ?_⟩
+    simp [h1, h2, h3, hg]
+
+theorem nameParams_sublist (cols : List String) (get : String → Option Val) :
+    ((nameParams cols get).map (·.1)).Sublist cols := by
+  unfold nameParams
+  induction cols with
+  | nil => simp
+  | cons c cs ih =>
+    simp only [List.filterMap_cons]
+    split
+    · exact ih.cons _
+    · rename_i b hb
+      split at hb
+      · cases hb
+      · cases hg : get c with
+        | none => simp [hg] at hb
+        | some w =>
+          simp only [hg, Option.map_some, Option.some.injEq] at hb
+          subst hb
+          simpa using ih.cons_cons c
+
+
+
+/-! ### phase 5: record shapes (tag → shape) of encoder and reader as tables -/
+
+theorem line_roundtrip_model (rnd : Rat → Rat) (fixed : Bool) (tx : Tx) :
+    (encodeLine modelEncShapes rnd fixed tx).bind (decodeLine modelResShapes) = some (encodeTx rnd fixed tx) := by
+  cases tx <;> rfl
+
+theorem lines_roundtrip_model (rnd : Rat → Rat) (fixed : Bool) (txs : List Tx) :
+    (encodeLines modelEncShapes rnd fixed txs).bind (decodeLines modelResShapes) = some (txs.map (encodeTx rnd fixed)) := by
+  induction txs with
+  | nil => rfl
+  | cons tx txs ih =>
+    have h1 := line_roundtrip_model rnd fixed tx
+    simp only [encodeLines]
+    cases he : encodeLine modelEncShapes rnd fixed tx with
+    | none => simp [he] at h1
+    | some l =>
+      cases hes : encodeLines modelEncShapes rnd fixed txs with
+      | none => simp [hes] at ih
+      | some ls =>
+        simp only [he, hes, Option.bind_some] at h1 ih ⊢
+        simp only [decodeLines, h1, ih, List.map_cons]
+
+theorem viaTables_eq (rnd : Rat → Rat) (fe fr : Bool) (info : PyDict) (txs : List Tx) :
+    viaTables rnd fe fr info txs = some (runNoFile rnd fe fr info txs) := by
+  have h := lines_roundtrip_model rnd fe (.t0 info :: txs)
+  unfold viaTables
+  cases he : encodeLines modelEncShapes rnd fe (.t0 info :: txs) with
+  | none => simp [he] at h
+  | some ls =>
+    simp only [he, Option.bind_some] at h
+    simp only [h, runNoFile, encode]
+    rfl
+
+section Phase5Shapes
+open Coba.Generated
+theorem source_shapes_match' : C07.encShapes = modelEncShapes ∧ C07.resShapes = modelResShapes := by
+  constructor <;> decide
+end Phase5Shapes
+
 end Coba.C07
